@@ -3,7 +3,7 @@
    ExtrOcamlBasic only; N / positive / nat stay inductive. *)
 Require Import ExtrOcamlBasic.
 From Coq Require Import NArith List.
-From Snap.Content Require Import SaveModel NoConfModel.
+From Snap.Content Require Import SaveModel NoConfModel LoadChoice.
 Extraction Language OCaml.
 Set Extraction Optimize.
-Extraction "../ocaml/C09/c09_ext.ml" SaveModel.save_calls NoConfModel.decode_class.
+Extraction "../ocaml/C09/c09_ext.ml" SaveModel.save_calls NoConfModel.decode_class LoadChoice.need_write LoadChoice.loaded.
